@@ -13,6 +13,8 @@ def make_case(rng, tier):
     kind = rng.choice(["gillespie", "tauleap"])
     big = tier != "quick"
     c = trajgen.make_sim_case(rng, kind=kind, max_cells=(4 if kind == "tauleap" else 6), max_steps=10)
+    if rng.random() < 0.4:
+        trajgen.add_multi_edges(rng, c["desc"])     # self-loops and parallel edges (the engines alone are driven here)
     c["units"][2] = "molecule"                      # the samples are then the engine's own integers
     c["policy"] = "on_iteration"
     c["init"] = "none"
